@@ -1,6 +1,979 @@
-//! `vh marks`: see /verif/docs/MODULE_CONTRACT.md
+//! `vh marks`: C10 replay/observation driver. See /verif/docs/C10.md and /verif/spec/Marks.tla.
+//!
+//! One JSON request per stdin line, one JSON result per stdout line:
+//!
+//! * `{"tag":..,"compile":{CompileReq}|null,"font":"path"|"","locs":[[normalized coords in fvar order]..]}`
+//!   compiles `compile.src` through the library entry point (panics are data) or reads `font`, then evaluates
+//!   mark positioning with the evaluator in this file and reports what it measured;
+//! * `{"tag":..,"parse":["top","_top",..]}` calls `fontir::ir::AnchorKind::new` on each name;
+//! * `{"tag":..,"glyphdata":["acutecomb",..]}` reports the bundled GlyphData category/subcategory per name
+//!   (the input the compiler uses when it has to infer GDEF categories).
+//!
+//! The evaluator is written against the raw bytes of GPOS and GDEF (big-endian reads, every offset checked);
+//! nothing of fontc / write-fonts / read-fonts table code is used beyond locating the tables in the sfnt
+//! directory and glyph names. It implements:
+//!   script/langsys/feature lists (features mark, mkmk, abvm, blwm), lookup list, extension lookups (type 9),
+//!   MarkBasePos / MarkLigPos / MarkMarkPos format 1, coverage formats 1-2, class def formats 1-2,
+//!   anchor formats 1-3 with VariationIndex device tables evaluated in the GDEF ItemVariationStore at each
+//!   requested normalized location, GDEF glyph class def, mark attachment class def, mark glyph sets,
+//!   and the OpenType rules that decide whether a mark lookup can attach mark `m` to glyph `g` at all:
+//!   lookup flags (ignore base/ligature/marks, mark attachment type, mark filtering set) applied to both
+//!   glyphs, MarkBase/MarkLig attach to the nearest preceding glyph that is not GDEF class 3, MarkMark needs
+//!   the preceding glyph to be GDEF class 3.
+//! Nothing is compared here; expectations come from TLC and the comparison is in checks/c10.py.
 
-pub fn run(_args: &[String]) -> i32 {
-    eprintln!("vh marks: not implemented yet");
-    2
+use std::{
+    collections::{BTreeMap, BTreeSet},
+    io::{BufRead, Write},
+};
+
+use serde::Deserialize;
+use serde_json::{Value, json};
+use write_fonts::read::{FontRef, TableProvider, types::Tag};
+
+use crate::compile::{CompileReq, compile, panic_message};
+
+type R<T> = Result<T, String>;
+
+// ----------------------------------------------------------------------------- raw reader
+
+#[derive(Clone, Copy)]
+struct Rd<'a> {
+    d: &'a [u8],
+    /// absolute offset inside the table, for messages
+    at: usize,
+}
+
+impl<'a> Rd<'a> {
+    fn new(d: &'a [u8]) -> Self {
+        Rd { d, at: 0 }
+    }
+    fn u16(&self, off: usize) -> R<u16> {
+        self.d
+            .get(off..off + 2)
+            .map(|b| u16::from_be_bytes([b[0], b[1]]))
+            .ok_or_else(|| format!("read u16 past end at {}+{}", self.at, off))
+    }
+    fn i16(&self, off: usize) -> R<i16> {
+        self.u16(off).map(|v| v as i16)
+    }
+    fn u32(&self, off: usize) -> R<u32> {
+        self.d
+            .get(off..off + 4)
+            .map(|b| u32::from_be_bytes([b[0], b[1], b[2], b[3]]))
+            .ok_or_else(|| format!("read u32 past end at {}+{}", self.at, off))
+    }
+    fn i32(&self, off: usize) -> R<i32> {
+        self.u32(off).map(|v| v as i32)
+    }
+    fn i8(&self, off: usize) -> R<i8> {
+        self.d
+            .get(off)
+            .map(|b| *b as i8)
+            .ok_or_else(|| format!("read i8 past end at {}+{}", self.at, off))
+    }
+    fn sub(&self, off: usize) -> R<Rd<'a>> {
+        if off > self.d.len() {
+            return Err(format!("offset {} past end at {}", off, self.at));
+        }
+        Ok(Rd {
+            d: &self.d[off..],
+            at: self.at + off,
+        })
+    }
+    fn tag(&self, off: usize) -> R<String> {
+        self.d
+            .get(off..off + 4)
+            .map(|b| String::from_utf8_lossy(b).to_string())
+            .ok_or_else(|| format!("read tag past end at {}+{}", self.at, off))
+    }
+}
+
+fn coverage(r: Rd) -> R<Vec<u16>> {
+    let fmt = r.u16(0)?;
+    let n = r.u16(2)? as usize;
+    let mut out = Vec::new();
+    match fmt {
+        1 => {
+            for i in 0..n {
+                out.push(r.u16(4 + 2 * i)?);
+            }
+        }
+        2 => {
+            for i in 0..n {
+                let s = r.u16(4 + 6 * i)?;
+                let e = r.u16(6 + 6 * i)?;
+                let start_idx = r.u16(8 + 6 * i)? as usize;
+                if start_idx != out.len() || e < s {
+                    return Err(format!("coverage format 2: bad range {s}..{e} index {start_idx}"));
+                }
+                for g in s..=e {
+                    out.push(g);
+                }
+            }
+        }
+        f => return Err(format!("coverage format {f}")),
+    }
+    Ok(out)
+}
+
+fn class_def(r: Rd) -> R<BTreeMap<u16, u16>> {
+    let fmt = r.u16(0)?;
+    let mut out = BTreeMap::new();
+    match fmt {
+        1 => {
+            let start = r.u16(2)?;
+            let n = r.u16(4)? as usize;
+            for i in 0..n {
+                let c = r.u16(6 + 2 * i)?;
+                if c != 0 {
+                    out.insert(start + i as u16, c);
+                }
+            }
+        }
+        2 => {
+            let n = r.u16(2)? as usize;
+            for i in 0..n {
+                let s = r.u16(4 + 6 * i)?;
+                let e = r.u16(6 + 6 * i)?;
+                let c = r.u16(8 + 6 * i)?;
+                if e < s {
+                    return Err(format!("class def range {s}..{e}"));
+                }
+                if c != 0 {
+                    for g in s..=e {
+                        out.insert(g, c);
+                    }
+                }
+            }
+        }
+        f => return Err(format!("class def format {f}")),
+    }
+    Ok(out)
+}
+
+// ----------------------------------------------------------------------------- GDEF
+
+#[derive(Default)]
+struct VarStore {
+    axis_count: usize,
+    /// regions[r][axis] = (start, peak, end) in F2Dot14 units
+    regions: Vec<Vec<(i32, i32, i32)>>,
+    /// data[outer] = (region indexes, rows)
+    data: Vec<(Vec<usize>, Vec<Vec<i32>>)>,
+}
+
+impl VarStore {
+    fn parse(r: Rd) -> R<VarStore> {
+        let fmt = r.u16(0)?;
+        if fmt != 1 {
+            return Err(format!("ItemVariationStore format {fmt}"));
+        }
+        let rl = r.sub(r.u32(2)? as usize)?;
+        let axis_count = rl.u16(0)? as usize;
+        let region_count = rl.u16(2)? as usize;
+        let mut regions = Vec::new();
+        for i in 0..region_count {
+            let mut axes = Vec::new();
+            for a in 0..axis_count {
+                let o = 4 + (i * axis_count + a) * 6;
+                axes.push((rl.i16(o)? as i32, rl.i16(o + 2)? as i32, rl.i16(o + 4)? as i32));
+            }
+            regions.push(axes);
+        }
+        let n = r.u16(6)? as usize;
+        let mut data = Vec::new();
+        for k in 0..n {
+            let off = r.u32(8 + 4 * k)? as usize;
+            if off == 0 {
+                data.push((Vec::new(), Vec::new()));
+                continue;
+            }
+            let d = r.sub(off)?;
+            let item_count = d.u16(0)? as usize;
+            let wdc = d.u16(2)?;
+            let long = wdc & 0x8000 != 0;
+            let word_count = (wdc & 0x7fff) as usize;
+            let ric = d.u16(4)? as usize;
+            if word_count > ric {
+                return Err("ItemVariationData: wordDeltaCount > regionIndexCount".into());
+            }
+            let mut idx = Vec::new();
+            for i in 0..ric {
+                let ri = d.u16(6 + 2 * i)? as usize;
+                if ri >= region_count {
+                    return Err(format!("region index {ri} out of range"));
+                }
+                idx.push(ri);
+            }
+            let mut pos = 6 + 2 * ric;
+            let mut rows = Vec::new();
+            for _ in 0..item_count {
+                let mut row = Vec::new();
+                for c in 0..ric {
+                    let v = match (c < word_count, long) {
+                        (true, false) => {
+                            pos += 2;
+                            d.i16(pos - 2)? as i32
+                        }
+                        (true, true) => {
+                            pos += 4;
+                            d.i32(pos - 4)?
+                        }
+                        (false, false) => {
+                            pos += 1;
+                            d.i8(pos - 1)? as i32
+                        }
+                        (false, true) => {
+                            pos += 2;
+                            d.i16(pos - 2)? as i32
+                        }
+                    };
+                    row.push(v);
+                }
+                rows.push(row);
+            }
+            data.push((idx, rows));
+        }
+        Ok(VarStore {
+            axis_count,
+            regions,
+            data,
+        })
+    }
+
+    /// scalar of region `ri` at `coords` (F2Dot14 units), per the OpenType variation region rules
+    fn scalar(&self, ri: usize, coords: &[i32]) -> f64 {
+        let mut s = 1.0f64;
+        for (a, (start, peak, end)) in self.regions[ri].iter().enumerate() {
+            let (start, peak, end) = (*start, *peak, *end);
+            let c = coords.get(a).copied().unwrap_or(0);
+            if start > peak || peak > end {
+                continue;
+            }
+            if start < 0 && end > 0 && peak != 0 {
+                continue;
+            }
+            if peak == 0 {
+                continue;
+            }
+            if c < start || c > end {
+                return 0.0;
+            }
+            if c == peak {
+                continue;
+            }
+            if c < peak {
+                s *= (c - start) as f64 / (peak - start) as f64;
+            } else {
+                s *= (end - c) as f64 / (end - peak) as f64;
+            }
+        }
+        s
+    }
+
+    fn delta(&self, outer: usize, inner: usize, coords: &[i32]) -> R<f64> {
+        let (idx, rows) = self
+            .data
+            .get(outer)
+            .ok_or_else(|| format!("variation index outer {outer} out of range"))?;
+        let row = rows
+            .get(inner)
+            .ok_or_else(|| format!("variation index {outer}/{inner} out of range"))?;
+        let mut d = 0.0;
+        for (k, ri) in idx.iter().enumerate() {
+            d += self.scalar(*ri, coords) * row[k] as f64;
+        }
+        Ok(d)
+    }
+}
+
+#[derive(Default)]
+struct Gdef {
+    present: bool,
+    classes: BTreeMap<u16, u16>,
+    mark_attach: BTreeMap<u16, u16>,
+    mark_sets: Vec<BTreeSet<u16>>,
+    store: Option<VarStore>,
+}
+
+fn parse_gdef(d: &[u8]) -> R<Gdef> {
+    let r = Rd::new(d);
+    let mut g = Gdef {
+        present: true,
+        ..Default::default()
+    };
+    let major = r.u16(0)?;
+    let minor = r.u16(2)?;
+    if major != 1 {
+        return Err(format!("GDEF version {major}.{minor}"));
+    }
+    let gc = r.u16(4)? as usize;
+    if gc != 0 {
+        g.classes = class_def(r.sub(gc)?)?;
+    }
+    let ma = r.u16(10)? as usize;
+    if ma != 0 {
+        g.mark_attach = class_def(r.sub(ma)?)?;
+    }
+    if minor >= 2 {
+        let ms = r.u16(12)? as usize;
+        if ms != 0 {
+            let m = r.sub(ms)?;
+            let fmt = m.u16(0)?;
+            if fmt != 1 {
+                return Err(format!("MarkGlyphSets format {fmt}"));
+            }
+            let n = m.u16(2)? as usize;
+            for i in 0..n {
+                let off = m.u32(4 + 4 * i)? as usize;
+                g.mark_sets.push(coverage(m.sub(off)?)?.into_iter().collect());
+            }
+        }
+    }
+    if minor >= 3 {
+        let vs = r.u32(14)? as usize;
+        if vs != 0 {
+            g.store = Some(VarStore::parse(r.sub(vs)?)?);
+        }
+    }
+    Ok(g)
+}
+
+// ----------------------------------------------------------------------------- GPOS
+
+#[derive(Clone, Debug)]
+struct Anchor {
+    format: u16,
+    x: i16,
+    y: i16,
+    /// (outer, inner) of a VariationIndex table
+    xvar: Option<(u16, u16)>,
+    yvar: Option<(u16, u16)>,
+    /// a hinting Device table (formats 1-3) is present: ppem specific, not evaluated
+    hint_device: bool,
+}
+
+fn device(r: Rd) -> R<(Option<(u16, u16)>, bool)> {
+    let fmt = r.u16(4)?;
+    match fmt {
+        0x8000 => Ok((Some((r.u16(0)?, r.u16(2)?)), false)),
+        1..=3 => Ok((None, true)),
+        f => Err(format!("device delta format {f:#x}")),
+    }
+}
+
+fn anchor(r: Rd) -> R<Anchor> {
+    let format = r.u16(0)?;
+    let mut a = Anchor {
+        format,
+        x: r.i16(2)?,
+        y: r.i16(4)?,
+        xvar: None,
+        yvar: None,
+        hint_device: false,
+    };
+    match format {
+        1 | 2 => {}
+        3 => {
+            let xo = r.u16(6)? as usize;
+            let yo = r.u16(8)? as usize;
+            if xo != 0 {
+                let (v, h) = device(r.sub(xo)?)?;
+                a.xvar = v;
+                a.hint_device |= h;
+            }
+            if yo != 0 {
+                let (v, h) = device(r.sub(yo)?)?;
+                a.yvar = v;
+                a.hint_device |= h;
+            }
+        }
+        f => return Err(format!("anchor format {f}")),
+    }
+    Ok(a)
+}
+
+/// mark coverage order -> (class, anchor)
+fn mark_array(r: Rd, n_cov: usize, class_count: usize) -> R<Vec<(u16, Anchor)>> {
+    let n = r.u16(0)? as usize;
+    if n != n_cov {
+        return Err(format!("mark array has {n} records, coverage {n_cov} glyphs"));
+    }
+    let mut out = Vec::new();
+    for i in 0..n {
+        let class = r.u16(2 + 4 * i)?;
+        if class as usize >= class_count {
+            return Err(format!("mark class {class} >= class count {class_count}"));
+        }
+        let off = r.u16(4 + 4 * i)? as usize;
+        out.push((class, anchor(r.sub(off)?)?));
+    }
+    Ok(out)
+}
+
+/// rows of `class_count` optional anchors, offsets relative to `base`
+fn anchor_matrix(base: Rd, first: usize, rows: usize, class_count: usize) -> R<Vec<Vec<Option<Anchor>>>> {
+    let mut out = Vec::new();
+    for i in 0..rows {
+        let mut row = Vec::new();
+        for c in 0..class_count {
+            let off = base.u16(first + 2 * (i * class_count + c))? as usize;
+            row.push(if off == 0 { None } else { Some(anchor(base.sub(off)?)?) });
+        }
+        out.push(row);
+    }
+    Ok(out)
+}
+
+enum Sub {
+    /// kind 4 (base) or 6 (mark): bases[i] = per class anchors
+    Simple {
+        marks: Vec<u16>,
+        mark_recs: Vec<(u16, Anchor)>,
+        bases: Vec<u16>,
+        base_recs: Vec<Vec<Option<Anchor>>>,
+    },
+    /// kind 5: ligs[i] = per component, per class anchors
+    Lig {
+        marks: Vec<u16>,
+        mark_recs: Vec<(u16, Anchor)>,
+        ligs: Vec<u16>,
+        lig_recs: Vec<Vec<Vec<Option<Anchor>>>>,
+    },
+}
+
+fn mark_subtable(r: Rd, ty: u16) -> R<Sub> {
+    let fmt = r.u16(0)?;
+    if fmt != 1 {
+        return Err(format!("GPOS type {ty} subtable format {fmt}"));
+    }
+    let marks = coverage(r.sub(r.u16(2)? as usize)?)?;
+    let second = coverage(r.sub(r.u16(4)? as usize)?)?;
+    let cc = r.u16(6)? as usize;
+    let mark_recs = mark_array(r.sub(r.u16(8)? as usize)?, marks.len(), cc)?;
+    let arr = r.sub(r.u16(10)? as usize)?;
+    let n = arr.u16(0)? as usize;
+    if n != second.len() {
+        return Err(format!("type {ty}: array has {n} records, coverage {} glyphs", second.len()));
+    }
+    if ty == 5 {
+        let mut lig_recs = Vec::new();
+        for i in 0..n {
+            let la = arr.sub(arr.u16(2 + 2 * i)? as usize)?;
+            let comps = la.u16(0)? as usize;
+            lig_recs.push(anchor_matrix(la, 2, comps, cc)?);
+        }
+        Ok(Sub::Lig {
+            marks,
+            mark_recs,
+            ligs: second,
+            lig_recs,
+        })
+    } else {
+        Ok(Sub::Simple {
+            marks,
+            mark_recs,
+            bases: second,
+            base_recs: anchor_matrix(arr, 2, n, cc)?,
+        })
+    }
+}
+
+struct Lookup {
+    ty: u16,
+    flag: u16,
+    filter: Option<u16>,
+    subs: Vec<Sub>,
+}
+
+struct Gpos {
+    /// (script, lang ("dflt" = default langsys), feature tag, lookup indices)
+    features: Vec<(String, String, String, Vec<u16>)>,
+    lookups: Vec<Option<Lookup>>,
+    lookup_types: Vec<u16>,
+    feature_variations: bool,
+}
+
+fn parse_gpos(d: &[u8]) -> R<Gpos> {
+    let r = Rd::new(d);
+    let major = r.u16(0)?;
+    let minor = r.u16(2)?;
+    if major != 1 {
+        return Err(format!("GPOS version {major}.{minor}"));
+    }
+    let sl = r.sub(r.u16(4)? as usize)?;
+    let fl = r.sub(r.u16(6)? as usize)?;
+    let ll = r.sub(r.u16(8)? as usize)?;
+    let feature_variations = minor >= 1 && r.u32(10)? != 0;
+
+    let feature = |idx: u16| -> R<(String, Vec<u16>)> {
+        let n = fl.u16(0)?;
+        if idx >= n {
+            return Err(format!("feature index {idx} >= {n}"));
+        }
+        let tag = fl.tag(2 + 6 * idx as usize)?;
+        let f = fl.sub(fl.u16(6 + 6 * idx as usize)? as usize)?;
+        let cnt = f.u16(2)? as usize;
+        let mut lk = Vec::new();
+        for i in 0..cnt {
+            lk.push(f.u16(4 + 2 * i)?);
+        }
+        Ok((tag, lk))
+    };
+    let mut features = Vec::new();
+    let mut langsys = |script: &str, lang: &str, ls: Rd| -> R<()> {
+        let req = ls.u16(2)?;
+        let n = ls.u16(4)? as usize;
+        let mut idxs = Vec::new();
+        if req != 0xffff {
+            idxs.push(req);
+        }
+        for i in 0..n {
+            idxs.push(ls.u16(6 + 2 * i)?);
+        }
+        for i in idxs {
+            let (tag, lk) = feature(i)?;
+            features.push((script.to_string(), lang.to_string(), tag, lk));
+        }
+        Ok(())
+    };
+    let ns = sl.u16(0)? as usize;
+    for i in 0..ns {
+        let stag = sl.tag(2 + 6 * i)?;
+        let s = sl.sub(sl.u16(6 + 6 * i)? as usize)?;
+        let dflt = s.u16(0)? as usize;
+        if dflt != 0 {
+            langsys(&stag, "dflt", s.sub(dflt)?)?;
+        }
+        let nl = s.u16(2)? as usize;
+        for k in 0..nl {
+            let ltag = s.tag(4 + 6 * k)?;
+            langsys(&stag, &ltag, s.sub(s.u16(8 + 6 * k)? as usize)?)?;
+        }
+    }
+
+    let nl = ll.u16(0)? as usize;
+    let mut lookups = Vec::new();
+    let mut lookup_types = Vec::new();
+    for i in 0..nl {
+        let l = ll.sub(ll.u16(2 + 2 * i)? as usize)?;
+        let mut ty = l.u16(0)?;
+        let flag = l.u16(2)?;
+        let n = l.u16(4)? as usize;
+        let filter = if flag & 0x10 != 0 { Some(l.u16(6 + 2 * n)?) } else { None };
+        let mut subs = Vec::new();
+        let mut real_ty = ty;
+        for k in 0..n {
+            let mut s = l.sub(l.u16(6 + 2 * k)? as usize)?;
+            let mut sty = ty;
+            if ty == 9 {
+                if s.u16(0)? != 1 {
+                    return Err("extension format".into());
+                }
+                sty = s.u16(2)?;
+                s = s.sub(s.u32(4)? as usize)?;
+                real_ty = sty;
+            }
+            if (4..=6).contains(&sty) {
+                subs.push(mark_subtable(s, sty)?);
+            }
+        }
+        ty = real_ty;
+        lookup_types.push(ty);
+        if (4..=6).contains(&ty) {
+            lookups.push(Some(Lookup { ty, flag, filter, subs }));
+        } else {
+            lookups.push(None);
+        }
+    }
+    Ok(Gpos {
+        features,
+        lookups,
+        lookup_types,
+        feature_variations,
+    })
+}
+
+// ----------------------------------------------------------------------------- evaluation
+
+struct Eval<'a> {
+    gdef: &'a Gdef,
+    names: &'a [String],
+    /// normalized coords in F2Dot14 units per requested location
+    locs: Vec<Vec<i32>>,
+    notes: BTreeSet<String>,
+}
+
+impl Eval<'_> {
+    fn name(&self, g: u16) -> String {
+        self.names
+            .get(g as usize)
+            .cloned()
+            .unwrap_or_else(|| format!("gid{g}"))
+    }
+
+    fn class(&self, g: u16) -> u16 {
+        self.gdef.classes.get(&g).copied().unwrap_or(0)
+    }
+
+    /// Is glyph `g` invisible to a lookup with these flags? (OpenType lookup flag rules)
+    fn skipped(&self, g: u16, flag: u16, filter: Option<u16>) -> Option<&'static str> {
+        let c = self.class(g);
+        if flag & 0x2 != 0 && c == 1 {
+            return Some("ignoreBaseGlyphs");
+        }
+        if flag & 0x4 != 0 && c == 2 {
+            return Some("ignoreLigatures");
+        }
+        if flag & 0x8 != 0 && c == 3 {
+            return Some("ignoreMarks");
+        }
+        if c == 3 {
+            if flag & 0x10 != 0 {
+                let inset = filter
+                    .and_then(|k| self.gdef.mark_sets.get(k as usize))
+                    .map(|s| s.contains(&g))
+                    .unwrap_or(false);
+                if !inset {
+                    return Some("not in mark filtering set");
+                }
+            } else if flag & 0xff00 != 0 {
+                let mat = self.gdef.mark_attach.get(&g).copied().unwrap_or(0);
+                if mat != flag >> 8 {
+                    return Some("mark attachment type");
+                }
+            }
+        }
+        None
+    }
+
+    /// anchor position at every requested location: [[x, y], ...]
+    fn resolve(&mut self, a: &Anchor) -> Vec<[f64; 2]> {
+        if a.hint_device {
+            self.notes.insert("hinting Device table on an anchor (not evaluated)".into());
+        }
+        if a.format == 2 {
+            self.notes.insert("anchor format 2 (contour point not evaluated)".into());
+        }
+        let mut out = Vec::new();
+        for li in 0..self.locs.len() {
+            let mut p = [a.x as f64, a.y as f64];
+            for (k, v) in [(0usize, a.xvar), (1usize, a.yvar)] {
+                if let Some((outer, inner)) = v {
+                    match self.gdef.store.as_ref() {
+                        Some(st) => match st.delta(outer as usize, inner as usize, &self.locs[li]) {
+                            Ok(d) => p[k] += d,
+                            Err(e) => {
+                                self.notes.insert(format!("variation index: {e}"));
+                                p[k] = f64::NAN;
+                            }
+                        },
+                        None => {
+                            self.notes
+                                .insert("anchor has a VariationIndex but GDEF has no ItemVariationStore".into());
+                            p[k] = f64::NAN;
+                        }
+                    }
+                }
+            }
+            out.push(p);
+        }
+        out
+    }
+}
+
+fn pts(v: &[[f64; 2]]) -> Value {
+    json!(
+        v.iter()
+            .map(|p| json!([if p[0].is_nan() { Value::Null } else { json!(p[0]) },
+                            if p[1].is_nan() { Value::Null } else { json!(p[1]) }]))
+            .collect::<Vec<_>>()
+    )
+}
+
+/// Evaluate the mark positioning of a font: every (attaching glyph [component], mark) some mark lookup pairs.
+fn evaluate(data: &[u8], locs: &[Vec<f64>]) -> R<Value> {
+    let font = FontRef::new(data).map_err(|e| format!("cannot parse font: {e}"))?;
+    let names = crate::fontutil::glyph_names(&font);
+    let table = |t: &[u8; 4]| font.table_data(Tag::new(t)).map(|d| d.as_bytes().to_vec());
+    let gdef = match table(b"GDEF") {
+        Some(d) => parse_gdef(&d).map_err(|e| format!("GDEF: {e}"))?,
+        None => Gdef::default(),
+    };
+    let gpos = match table(b"GPOS") {
+        Some(d) => Some(parse_gpos(&d).map_err(|e| format!("GPOS: {e}"))?),
+        None => None,
+    };
+    let axis_count = font.fvar().map(|f| f.axis_count() as usize).unwrap_or(0);
+    let mut ev = Eval {
+        gdef: &gdef,
+        names: &names,
+        locs: locs
+            .iter()
+            .map(|l| l.iter().map(|c| (c * 16384.0).round() as i32).collect())
+            .collect(),
+        notes: BTreeSet::new(),
+    };
+    if let Some(st) = &gdef.store
+        && st.axis_count != axis_count
+    {
+        ev.notes
+            .insert(format!("GDEF variation store has {} axes, fvar {}", st.axis_count, axis_count));
+    }
+    for l in locs {
+        if l.len() != axis_count {
+            return Err(format!("location {l:?} does not have {axis_count} coordinates"));
+        }
+    }
+
+    let mut out_lookups = Vec::new();
+    let mut attachments = Vec::new();
+    let mut feats_json = Vec::new();
+    if let Some(gpos) = &gpos {
+        if gpos.feature_variations {
+            ev.notes.insert("GPOS has FeatureVariations (not evaluated)".into());
+        }
+        // lookup -> set of "script/lang:feature" that reach it, mark-ish features only
+        let mut reach: BTreeMap<u16, BTreeSet<String>> = BTreeMap::new();
+        for (s, l, t, lk) in &gpos.features {
+            feats_json.push(json!({"script": s, "lang": l, "tag": t, "lookups": lk}));
+            if ["mark", "mkmk", "abvm", "blwm"].contains(&t.as_str()) {
+                for i in lk {
+                    reach.entry(*i).or_default().insert(format!("{s}/{l}:{t}"));
+                }
+            }
+        }
+        for (li, lk) in gpos.lookups.iter().enumerate() {
+            let Some(lk) = lk else { continue };
+            let via: Vec<String> = reach.get(&(li as u16)).map(|s| s.iter().cloned().collect()).unwrap_or_default();
+            let kind = match lk.ty {
+                4 => "base",
+                5 => "lig",
+                _ => "mark",
+            };
+            let filter_names: Option<Vec<String>> = lk.filter.map(|k| {
+                gdef.mark_sets
+                    .get(k as usize)
+                    .map(|s| s.iter().map(|g| ev.name(*g)).collect())
+                    .unwrap_or_default()
+            });
+            let mut subs_json = Vec::new();
+            for (si, sub) in lk.subs.iter().enumerate() {
+                let (marks, mark_recs) = match sub {
+                    Sub::Simple { marks, mark_recs, .. } | Sub::Lig { marks, mark_recs, .. } => (marks, mark_recs),
+                };
+                let mut classes: BTreeMap<u16, Vec<String>> = BTreeMap::new();
+                for (k, m) in marks.iter().enumerate() {
+                    classes.entry(mark_recs[k].0).or_default().push(ev.name(*m));
+                }
+                // attaching glyphs: (gid, component (0 = not a ligature), per class anchors)
+                let mut targets: Vec<(u16, usize, usize, &Vec<Option<Anchor>>)> = Vec::new();
+                let mut bases_json = Vec::new();
+                match sub {
+                    Sub::Simple { bases, base_recs, .. } => {
+                        for (k, b) in bases.iter().enumerate() {
+                            targets.push((*b, 0, 0, &base_recs[k]));
+                            bases_json.push(json!({"g": ev.name(*b),
+                                "classes": base_recs[k].iter().enumerate().filter(|(_, a)| a.is_some()).map(|(c, _)| c).collect::<Vec<_>>()}));
+                        }
+                    }
+                    Sub::Lig { ligs, lig_recs, .. } => {
+                        for (k, b) in ligs.iter().enumerate() {
+                            for (ci, comp) in lig_recs[k].iter().enumerate() {
+                                targets.push((*b, ci + 1, lig_recs[k].len(), comp));
+                            }
+                            bases_json.push(json!({"g": ev.name(*b), "components": lig_recs[k].len(),
+                                "anchored": lig_recs[k].iter().map(|comp| comp.iter().enumerate().filter(|(_, a)| a.is_some()).map(|(c, _)| c).collect::<Vec<_>>()).collect::<Vec<_>>()}));
+                        }
+                    }
+                }
+                subs_json.push(json!({"mark_classes": classes.iter().map(|(c, v)| json!([c, v])).collect::<Vec<_>>(),
+                                      "targets": bases_json}));
+                for (g, comp, ncomp, row) in targets {
+                    for (k, m) in marks.iter().enumerate() {
+                        let (class, manchor) = &mark_recs[k];
+                        let Some(ganchor) = row.get(*class as usize).and_then(|a| a.as_ref()) else {
+                            continue;
+                        };
+                        // can the lookup attach m to g at all?
+                        let mut why: Vec<String> = Vec::new();
+                        if via.is_empty() {
+                            why.push("lookup not referenced by a mark/mkmk/abvm/blwm feature".into());
+                        }
+                        if let Some(w) = ev.skipped(*m, lk.flag, lk.filter) {
+                            why.push(format!("mark glyph skipped by the lookup: {w}"));
+                        }
+                        if let Some(w) = ev.skipped(g, lk.flag, lk.filter) {
+                            why.push(format!("attaching glyph skipped by the lookup: {w}"));
+                        }
+                        let gc = ev.class(g);
+                        if lk.ty == 6 {
+                            if gc != 3 {
+                                why.push(format!("mark-to-mark but attaching glyph is GDEF class {gc}, not 3"));
+                            }
+                        } else if gc == 3 {
+                            why.push("attaching glyph is GDEF class 3: skipped when looking for the base".into());
+                        }
+                        let b = ev.resolve(ganchor);
+                        let mk = ev.resolve(manchor);
+                        attachments.push(json!({
+                            "lookup": li, "sub": si, "type": kind, "via": via, "g": ev.name(g), "comp": comp,
+                            "ncomp": ncomp, "m": ev.name(*m), "class": class, "effective": why.is_empty(),
+                            "why_not": why, "base": pts(&b), "mark": pts(&mk),
+                            "formats": [ganchor.format, manchor.format],
+                        }));
+                    }
+                }
+            }
+            out_lookups.push(json!({"index": li, "type": kind, "flag": lk.flag, "filter": filter_names,
+                                    "via": via, "subtables": subs_json}));
+        }
+    }
+    let classes: BTreeMap<String, u16> = gdef.classes.iter().map(|(g, c)| (ev.name(*g), *c)).collect();
+    Ok(json!({
+        "glyphs": names,
+        "axes": axis_count,
+        "has_gpos": gpos.is_some(),
+        "has_gdef": gdef.present,
+        "gdef_classes": classes,
+        "mark_sets": gdef.mark_sets.iter().map(|s| s.iter().map(|g| ev.name(*g)).collect::<Vec<_>>()).collect::<Vec<_>>(),
+        "lookup_types": gpos.as_ref().map(|g| g.lookup_types.clone()).unwrap_or_default(),
+        "features": feats_json,
+        "lookups": out_lookups,
+        "attachments": attachments,
+        "notes": ev.notes.iter().cloned().collect::<Vec<_>>(),
+    }))
+}
+
+// ----------------------------------------------------------------------------- requests
+
+#[derive(Debug, Default, Clone, Deserialize)]
+#[serde(default)]
+struct Req {
+    tag: String,
+    compile: Option<CompileReq>,
+    font: String,
+    locs: Vec<Vec<f64>>,
+    parse: Option<Vec<String>>,
+    glyphdata: Option<Vec<String>>,
+}
+
+fn kind_json(name: &str) -> Value {
+    use fontir::ir::AnchorKind;
+    match std::panic::catch_unwind(|| AnchorKind::new(name)) {
+        Err(p) => json!({"name": name, "outcome": "panic", "message": panic_message(p)}),
+        Ok(Err(e)) => json!({"name": name, "outcome": "error", "message": format!("{e:?}")}),
+        Ok(Ok(k)) => {
+            let (kind, group, index) = match &k {
+                AnchorKind::Base(g) => ("base", g.to_string(), 0),
+                AnchorKind::Mark(g) => ("mark", g.to_string(), 0),
+                AnchorKind::Ligature { group_name, index } => ("lig", group_name.to_string(), *index),
+                AnchorKind::ComponentMarker(i) => ("compmarker", String::new(), *i),
+                AnchorKind::Caret(i) => ("caret", String::new(), *i),
+                AnchorKind::VCaret(i) => ("vcaret", String::new(), *i),
+                AnchorKind::CursiveEntry => ("entry", String::new(), 0),
+                AnchorKind::CursiveExit => ("exit", String::new(), 0),
+            };
+            json!({"name": name, "outcome": "ok", "kind": kind, "group": group, "index": index})
+        }
+    }
+}
+
+fn glyphdata_json(names: &[String]) -> Value {
+    use glyphs_reader::glyphdata::GlyphData;
+    let gd = GlyphData::new(None);
+    let mut out = serde_json::Map::new();
+    for n in names {
+        let v = match gd.query(n, None) {
+            Some(r) => json!({"category": format!("{:?}", r.category),
+                              "subcategory": r.subcategory.map(|s| format!("{s:?}"))}),
+            None => Value::Null,
+        };
+        out.insert(n.clone(), v);
+    }
+    Value::Object(out)
+}
+
+fn handle(req: &Req) -> Value {
+    if let Some(names) = &req.parse {
+        return json!({"tag": req.tag, "parse": names.iter().map(|n| kind_json(n)).collect::<Vec<_>>()});
+    }
+    if let Some(names) = &req.glyphdata {
+        let v = std::panic::catch_unwind(|| glyphdata_json(names));
+        return match v {
+            Ok(v) => json!({"tag": req.tag, "glyphdata": v}),
+            Err(p) => json!({"tag": req.tag, "outcome": "panic", "message": panic_message(p)}),
+        };
+    }
+    let mut res = serde_json::Map::new();
+    res.insert("tag".into(), json!(req.tag));
+    let bytes = if let Some(c) = &req.compile {
+        let (cres, bytes) = compile(c);
+        res.insert("outcome".into(), json!(cres.outcome));
+        res.insert("message".into(), json!(cres.message));
+        res.insert("wall_ms".into(), json!(cres.wall_ms as u64));
+        bytes
+    } else {
+        match std::fs::read(&req.font) {
+            Ok(b) => {
+                res.insert("outcome".into(), json!("ok"));
+                Some(b)
+            }
+            Err(e) => {
+                res.insert("outcome".into(), json!("unreadable"));
+                res.insert("message".into(), json!(e.to_string()));
+                None
+            }
+        }
+    };
+    if let Some(bytes) = bytes {
+        match std::panic::catch_unwind(|| evaluate(&bytes, &req.locs)) {
+            Ok(Ok(v)) => {
+                res.insert("eval".into(), v);
+            }
+            Ok(Err(e)) => {
+                res.insert("eval_error".into(), json!(e));
+            }
+            Err(p) => {
+                res.insert("eval_error".into(), json!(format!("evaluator panicked: {}", panic_message(p))));
+            }
+        }
+    }
+    Value::Object(res)
+}
+
+pub fn run(args: &[String]) -> i32 {
+    if std::env::var("VH_PANIC_VERBOSE").is_err() {
+        std::panic::set_hook(Box::new(|_| {}));
+    }
+    let input: Box<dyn BufRead> = match args.first() {
+        Some(p) => match std::fs::File::open(p) {
+            Ok(f) => Box::new(std::io::BufReader::new(f)),
+            Err(e) => {
+                eprintln!("cannot open {p}: {e}");
+                return 2;
+            }
+        },
+        None => Box::new(std::io::BufReader::new(std::io::stdin())),
+    };
+    let stdout = std::io::stdout();
+    for line in input.lines() {
+        let Ok(line) = line else { break };
+        if line.trim().is_empty() {
+            continue;
+        }
+        let req: Req = match serde_json::from_str(&line) {
+            Ok(r) => r,
+            Err(e) => {
+                eprintln!("bad request: {e}");
+                return 2;
+            }
+        };
+        let v = handle(&req);
+        let mut out = stdout.lock();
+        let _ = writeln!(out, "{}", serde_json::to_string(&v).unwrap());
+        let _ = out.flush();
+    }
+    0
 }
